@@ -36,6 +36,7 @@ class Ext:
         protect=(),
         modifies=None,
         note="",
+        preserves=(),
     ):
         self.name = name
         self.returns = returns
@@ -45,15 +46,26 @@ class Ext:
         self.protect = list(protect)
         self.modifies = modifies
         self.note = note
+        self.preserves = list(preserves)  # ASSUMED: the callable never writes these footprints
 
 
 class Loop:
-    def __init__(self, inv=(), modifies=(), variant=None, index="_i", bound=None):
+    def __init__(self, inv=(), modifies=(), variant=None, index="_i", bound=None, preserves=(),
+                 pure=False, body_unit=None, protect=()):
+        # protect: with modifies=['*'] the only locations the body leaves unchanged
+        self.protect = list(protect)
+        # body_unit: name of the region unit that verifies the loop body (and the
+        # preservation of the invariants, as its requires/ensures)
+        self.body_unit = body_unit
+        # pure: the body performs no heap write at all (checked at the end of
+        # every body path); the heap is then not havocked at the loop head
+        self.pure = pure
         self.inv = list(inv)
         self.modifies = list(modifies)
         self.variant = variant
         self.index = index
         self.bound = bound
+        self.preserves = list(preserves)  # tracked footprints the body provably never writes
 
 
 class Schema:
@@ -74,9 +86,13 @@ class SpecFn:
     expression over the parameter names) is instantiated once at every
     application that occurs in a clause (unfold-once)."""
 
-    def __init__(self, name, params, ret, defn=None, unfold=1, heap=False, facts=()):
+    def __init__(self, name, params, ret, defn=None, unfold=1, heap=False, facts=(), reads=()):
         self.heap = heap  # value depends on object attributes: the heap is an implicit argument
         self.facts = list(facts)  # extra facts about F(args), instantiated at every application
+        # footprint: attribute names ('[]' list contents, '{}' dict contents) the value depends on
+        self.reads = list(reads)
+        from .heap import TRACKED
+        TRACKED.update(self.reads)
         self.name = name
         self.params = list(params)  # [(name, type)]
         self.ret = ret
@@ -117,6 +133,7 @@ class Unit:
         assume_post_only=False,
         trusted=False,
         region=None,
+        preserves=(),
     ):
         self.name = name
         self.target = target
@@ -146,6 +163,7 @@ class Unit:
         self.returns = returns
         self.returns_keys = returns_keys  # result is a fresh dict with exactly these string keys
         self.trusted = trusted
+        self.preserves = list(preserves)  # footprints the unit provably never writes (POST obligation)
         self.region = region  # "body:<loopkey>" | "stmt:<loopkey>": the unit is a statement region
         REGISTRY[name] = self
         if region is None:
